@@ -1,11 +1,13 @@
 package checks
 
 import (
+	"context"
 	"fmt"
 	"os"
 	"os/exec"
 	"path/filepath"
 	"strings"
+	"time"
 
 	"verif/internal/fw"
 	"verif/internal/h"
@@ -20,7 +22,10 @@ type cliRes struct {
 }
 
 func runCLIHere(cli, dir string, args []string, stdin string, stdinAsFile bool) cliRes {
-	cmd := exec.Command(cli, args...)
+	// a changed tree may make the executable spin for ever: every run is bounded
+	ctx, cancel := context.WithTimeout(context.Background(), 30*time.Second)
+	defer cancel()
+	cmd := exec.CommandContext(ctx, cli, args...)
 	cmd.Dir = dir
 	if stdinAsFile {
 		p := filepath.Join(dir, ".stdin")
@@ -39,6 +44,9 @@ func runCLIHere(cli, dir string, args []string, stdin string, stdinAsFile bool) 
 		st = ee.ExitCode()
 	} else if err != nil {
 		st = -1
+	}
+	if ctx.Err() != nil {
+		return cliRes{so.String(), se.String() + "<the executable did not end within 30 s and was killed>", -2}
 	}
 	return cliRes{so.String(), se.String(), st}
 }
@@ -324,6 +332,58 @@ func C19(c *fw.Ctx) {
 							c.Violate(r)
 						}
 					}
+				}
+			}
+		}
+	}
+	// ---- (3c) calls with n arguments (n across every power of two up to 2^11, and 250..260): a program
+	// that is derivable and valid runs, prints and exits 0; the same call in a function that is never called
+	{
+		var ns []int
+		for k := 0; k <= 11; k++ {
+			ns = append(ns, 1<<uint(k)-1, 1<<uint(k), 1<<uint(k)+1)
+		}
+		for n := 250; n <= 260; n++ {
+			ns = append(ns, n)
+		}
+		for _, n := range ns {
+			if n < 1 {
+				continue
+			}
+			for variant := 0; variant < 3; variant++ {
+				if !c.Mine() {
+					continue
+				}
+				var args []string
+				for i := 1; i <= n; i++ {
+					args = append(args, fmt.Sprint(i))
+				}
+				call := model.BiMax + "(" + strings.Join(args, ", ") + ")"
+				want := fmt.Sprintf("start\n%d\nend\n", n)
+				var src string
+				switch variant {
+				case 0:
+					src = model.KwPrint + " \"start\";\n" + model.KwPrint + " " + call + ";\n" + model.KwPrint + " \"end\";\n"
+				case 1:
+					src = model.KwPrint + " \"start\";\n" + model.KwFun + " never() { " + model.KwReturn + " " + call + "; }\n" + model.KwPrint + " " + fmt.Sprint(n) + ";\n" + model.KwPrint + " \"end\";\n"
+				case 2:
+					src = model.KwPrint + " \"start\";\n" + model.KwPrint + " " + model.BiLen + "(" + model.BiAppend + "([], " + strings.Join(args, ", ") + "));\n" + model.KwPrint + " \"end\";\n"
+				}
+				o := h.RunFile(src, h.Opts{Fuel: int64(2_000_000 + 400*len(src))})
+				c.Eval(src, true)
+				c.R.States++
+				base := fw.Replay{Mode: "file", Program: trunc(src, 300), CLI: true, InStdout: o.Stdout, InStderr: trunc(o.Stderr, 300), InStatus: o.Status}
+				if abnormal(c, o, "file", trunc(src, 200), base) {
+					continue
+				}
+				c.Outcome(o.Stdout)
+				if o.Stdout != want || o.Status != 0 || o.Stderr != "" {
+					r := base
+					r.Sig = fmt.Sprintf("C19|clean-program|call-with-many-arguments|variant%d", variant)
+					r.What = fmt.Sprintf("a valid program with a call of %d arguments must run, print and exit 0", n)
+					r.Expected = fmt.Sprintf("stdout %q status 0, empty stderr", want)
+					r.Observed = fmt.Sprintf("stdout %q status %d stderr %q", trunc(o.Stdout, 100), o.Status, trunc(o.Stderr, 200))
+					c.Violate(r)
 				}
 			}
 		}
